@@ -64,6 +64,8 @@ type AccountSpec struct {
 	// Multi, when non-nil, makes this a multisig-owned account (Key is ignored): address and stored public key
 	// are those of the multisig key.
 	Multi *crypto.PublicKeyMultiSignature
+	// Extra: coins of other denominations the genesis file gives this account (nil = none)
+	Extra sdk.Coins
 }
 
 type NodeSpec struct {
@@ -249,7 +251,7 @@ func BuildGenesis(spec *Spec) app.GenesisState {
 			faucet += a.Balance + DefaultFee
 			continue
 		}
-		ba = &auth.BaseAccount{Address: Addr(a.Key), Coins: sdk.NewCoins(sdk.NewCoin(sdk.DefaultStakeDenom, sdk.NewInt(a.Balance+extra[Addr(a.Key).String()]))), PubKey: a.Key.PublicKey()}
+		ba = &auth.BaseAccount{Address: Addr(a.Key), Coins: sdk.NewCoins(sdk.NewCoin(sdk.DefaultStakeDenom, sdk.NewInt(a.Balance+extra[Addr(a.Key).String()]))).Add(a.Extra), PubKey: a.Key.PublicKey()}
 		delete(extra, Addr(a.Key).String())
 		authGen.Accounts = append(authGen.Accounts, ba)
 	}
